@@ -41,10 +41,10 @@ impl StainingTemplate {
     /// Reads an existing ULD file
     pub fn from_existing(buffer: ByteSpan) -> Option<Self> {
         let mut cursor = Cursor::new(buffer);
-        let header = StmHeader::read(&mut cursor).unwrap();
+        let header = StmHeader::read(&mut cursor).ok()?;
 
         for entry_offset in header.offsets {
-            let offset = entry_offset as i32 * 2 + 8 + 4 * header.entry_count;
+            let offset = entry_offset as i64 * 2 + 8 + 4 * header.entry_count as i64;
 
             // read the stm entry
             cursor.seek(SeekFrom::Start(offset as u64)).ok()?;
@@ -52,7 +52,7 @@ impl StainingTemplate {
             // read the value offsets
             let mut ends = [0u16; 5];
             for end in &mut ends {
-                *end = cursor.read_le::<u16>().unwrap() * 2;
+                *end = cursor.read_le::<u16>().ok()?.wrapping_mul(2);
             }
 
             /*let new_offset = (offset + 10) as u64;
